@@ -48,6 +48,12 @@ def cells(tier, seed):
             for Rx in (1, 3):
                 out.append({"ak": ak, "Dx": Dx, "Dy": Dy, "Dk": Dk, "Da": Da_, "Rx": Rx,
                             "reps": reps, "group": [ak, Dx, Dy, Dk, Da_, Rx], "cost": 3.0})
+            if ak in build.HET_KINDS and (Dx, Dy) in ((1, 2), (2, 2)):
+                # y measured in other units: all covariances equally well conditioned, only scaled
+                for ys in (1e-3, 1e3):
+                    out.append({"ak": ak, "Dx": Dx, "Dy": Dy, "Dk": Dk, "Da": Da_, "Rx": 1,
+                                "yscale": ys, "reps": reps,
+                                "group": [ak, Dx, Dy, Dk, Da_, "ys"], "cost": 3.0})
     for ak in ("lrbf", "lsem"):
         for Dx in (1, 2, 3):
             out.append({"unit": ak, "Dx": Dx, "Dk": 3, "reps": reps, "group": ["unit", ak, Dx],
@@ -158,10 +164,12 @@ def run_cell(cell, rec, seed):
         rng = gen.rng_for(seed, "C16", ak, Dx, Dy, Dk, Da, Rx, rep)
         if het and Dk > (Da or Dy):
             continue
-        c, t = build.mk_approx(ak, rng, Dy, Dx, Dk, Da=Da, kappa=10.0)
+        ys = cell.get("yscale", 1.0)
+        c, t = build.mk_approx(ak, rng, Dy, Dx, Dk, Da=Da, kappa=10.0, **(
+            {"yscale": ys} if het else {}))
         p, tp = build.mk_pdf(rng, Rx, Dx, kappa=float(rng.choice(gen.KAPPAS[:3])), scale=0.5)
-        info = {"ak": ak, "Dx": Dx, "Dy": Dy, "Dk": Dk, "Da": Da, "Rx": Rx}
-        rec.cell([ak, Dx, Dy, Dk, Da, Rx], True)
+        info = {"ak": ak, "Dx": Dx, "Dy": Dy, "Dk": Dk, "Da": Da, "Rx": Rx, "yscale": ys}
+        rec.cell([ak, Dx, Dy, Dk, Da, Rx, ys], True)
         # ---------- oracle moments per prior component
         Ey, Sy, Cyx, src = [], [], [], []
         for r in range(Rx):
@@ -216,11 +224,13 @@ def run_cell(cell, rec, seed):
         Sy = 0.5 * (Sy + np.swapaxes(Sy, 1, 2))
         Sxy = np.concatenate([np.concatenate([tp.Sigma, np.swapaxes(Cyx, 1, 2)], axis=2),
                               np.concatenate([Cyx, Sy], axis=2)], axis=1)
-        if not gen.in_domain(Sxy, Sy):
+        # (with y in other units the joint of (x, y) is ill conditioned by construction although
+        # every covariance the oracle uses - Cov[y], Cov[x] and the Schur complement - is not)
+        if not gen.in_domain(Sy) or (ys == 1.0 and not gen.in_domain(Sxy)):
             rec.count("out_of_domain")
             continue
         info["oracle"] = src[0]
-        ns_mu = 1.0 + np.max(np.abs(Ey))
+        ns_mu = (1.0 if ys == 1.0 else 0.0) + np.max(np.abs(Ey)) + np.sqrt(np.max(np.abs(Sy)))
         # second moments are differences E[yy'] - E[y]E[y]': natural scale is E[yy']
         ns_S = np.max(np.abs(Sy) + np.abs(Ey)[:, :, None] * np.abs(Ey)[:, None, :], axis=(1, 2),
                       keepdims=True)
